@@ -53,6 +53,7 @@ class Tr:
         self.generic = set()          # names of lists whose elements are of an abstract type
         self.opt_params = set()       # optional parameters (`x is None` tests become matches)
         self.ret_optional = False     # the function returns an Optional value
+        self.skip_assign = set()      # names whose assignment is an external read folded into a parameter
         self.declared = []            # stack of sets of declared names
         self.mutable = set()
 
@@ -153,7 +154,7 @@ class Tr:
                 parts.append(self.cmp(left, op, right))
                 left = right
             return parts[0] if len(parts) == 1 else '(' + ' && '.join(parts) + ')'
-        if isinstance(n, ast.Call):
+        if isinstance(n, (ast.Call, ast.Name)):
             return self.e(n)
         if isinstance(n, ast.Constant) and isinstance(n.value, bool):
             return 'true' if n.value else 'false'
@@ -211,12 +212,13 @@ class Tr:
                     and self.src(nxt.test) == '%s is None' % s.targets[0].id and not nxt.orelse
                     and len(nxt.body) == 1 and isinstance(nxt.body[0], ast.Return)):
                 x = s.targets[0].id
-                out.append('%smatch %s with' % (ind, self.e(s.value)))
-                out.append('%s| none => return %s' % (ind, self.e(nxt.body[0].value)))
-                out.append('%s| some v_ => %s := v_' % (ind, x) if self.is_declared(x) else
-                           '%s| some v_ => pure ()' % ind)
-                if not self.is_declared(x):
-                    raise Unsupported('optional idiom on an undeclared name')
+                if self.is_declared(x):
+                    out.append('%smatch %s with' % (ind, self.e(s.value)))
+                    out.append('%s| none => return %s' % (ind, self.ret(nxt.body[0].value)))
+                    out.append('%s| some v_ => %s := v_' % (ind, x))
+                else:
+                    out.append('%slet some %s := %s | return %s' % (ind, x, self.e(s.value), self.ret(nxt.body[0].value)))
+                    self.declared[-1].add(x)
                 i += 2
                 continue
             out += self.stmt(s, ind)
@@ -241,6 +243,8 @@ class Tr:
             if not isinstance(t, ast.Name):
                 raise Unsupported('assignment target ' + self.src(t))
             x = t.id
+            if x in self.skip_assign:
+                return []
             if self.is_declared(x):
                 return ['%s%s := %s' % (ind, x, self.e(s.value))]
             self.declared[-1].add(x)
@@ -415,6 +419,22 @@ def translate():
                 {'self.get_valid_classes()': 'get_valid_classes self_shape'},
                 optional_exprs=['self.n_slices'], cls_vars=['classification']),
              '`DcmMetaExtension.get_multiplicity` (dcmmeta.py), translated statement by statement')
+    # ---- meta_valid
+    f = find_func(dm, 'NiftiWrapper', 'meta_valid')
+    if f is None:
+        missing.append('meta_valid: not found')
+    else:
+        tr = Tr({'self.nii_img.shape': 'img_shape', 'self.meta_ext.shape': 'meta_shape',
+                 'hdr.get_dim_info()[2]': 'hdr_slice_dim', 'self.meta_ext.n_slices': 'meta_n_slices',
+                 'hdr.get_n_slices()': '(some (img_shape)[slice_dim]!)',
+                 'np.allclose(slice_dir, self.meta_ext.slice_normal, atol=1e-06)': 'aligned'}, {},
+                optional_exprs=['hdr.get_dim_info()[2]'])
+        tr.skip_assign = {'hdr', 'slice_dir'}
+        emit('meta_valid', '(img_shape meta_shape : List Nat) (hdr_slice_dim meta_n_slices : Option Nat) (aligned : Bool) '
+             '(classification : Cls) : Except PyErr Bool', f.body + [ast.parse('raise ValueError()').body[0]], tr,
+             '`NiftiWrapper.meta_valid` (dcmmeta.py), translated statement by statement; the header reads '
+             '(`dim_info`, `get_n_slices`) and the `np.allclose` of the slice directions are parameters; falling off '
+             'the end (an unknown classification) is the appended `throw`')
     # ---- _get_const_period
     f = find_func(dm, 'DcmMetaExtension', '_get_const_period')
     if f is None:
